@@ -467,6 +467,13 @@ proof fn lemma_log_new_file(w1: &World, w2: &World, id: u64)
     lemma_log_frame(w1, w2, ID_BOUND);
 }
 /// what reads after a restart: the map the recovered key directory implements
+/// (broadcast form of lemma_log_new_file, for exits through `?` where no ghost statement can be placed)
+broadcast proof fn lemma_b_log_new_file(w1: &World, w2: &World, id: u64)
+    requires !w1.data.contains_key(id), w2.data == #[trigger] w1.data.insert(id, empty_data()), w2.hint == w1.hint, !w1.hint.contains_key(id)
+    ensures #[trigger] full_log(w2) == full_log(w1)
+{
+    lemma_log_new_file(w1, w2, id);
+}
 spec fn recover_model(w: &World) -> Map<Bytes, Bytes> { model(spec_recover(w), w) }
 
 /// (broadcast) the log depends only on the records
